@@ -27,6 +27,9 @@ PALETTE = [u'<zq9x onzq9x="a">&amp;</zq9x>', u'"\'><zq9x>', u'{code} {detail!r} 
            u'\xfcn\xef ☃ zq9x', u'&lt;zq9x&gt; &amp;amp;', u']]><zq9x/>', u'<!--zq9x--><zq9x>', u'</title></p></pre><zq9x>',
            u'</script><zq9x>', u'http://x/" onzq9x="1', u"http://x/'><zq9x>", u'javascript:zq9x', u'plain zq9x text',
            u'a\x0bb\x1f zq9x',
+           # compatibility characters that LOOK like markup (full-width / small forms): text like any other - they must reach
+           # the client as they are, not folded into real < > " &
+           u'\uff1czq9x onzq9x\uff1d\uff021\uff02\uff1e\uff06amp;\uff1c/zq9x\uff1e \ufe64zq9x\ufe65',
            # long, markup-dense texts (whatever is done to long fields must happen before escaping, not after)
            u'x' + u'<zq9x>&"\'' * 600, u'xx' + u'<&>' * 1500, u'xxx' + u'&<zq9x a="1">' * 400]
 XML_SAFE = [p for p in PALETTE if not re.search(u'[\x00-\x08\x0b\x0c\x0e-\x1f]', p)]
